@@ -27,9 +27,9 @@ func VH_C08_ReadTemplates() {
 	var tmpl [][]string
 	switch format {
 	case 0: // srt
-		tmpl = [][]string{{"", "-->", ""}, {"1"}, {""}, {"00:00:01,000 --> 00:00:02,000", ""}, {"<i>", ""}}
+		tmpl = [][]string{{"", "-->", ""}, {"1"}, {""}, {"00:00:01,000 --> 00:00:02,000", ""}, {"<i>", ""}, {"00:00:01,000 -->", "-->", ""}}
 	case 1: // webvtt
-		tmpl = [][]string{{"", "-->", ""}, {"Region: ", ""}, {"STYLE"}, {"NOTE ", ""}, {"X-TIMESTAMP-MAP=", ""}, {"00:01.000 --> 00:02.000 ", ""}, {""}}
+		tmpl = [][]string{{"", "-->", ""}, {"Region: ", ""}, {"STYLE"}, {"NOTE ", ""}, {"X-TIMESTAMP-MAP=", ""}, {"00:01.000 --> 00:02.000 ", ""}, {""}, {"00:00:01.000 -->", "-->", ""}}
 	default: // ssa
 		tmpl = [][]string{{"[Events]"}, {"Format:", ""}, {"Dialogue:", ""}, {"[V4 Styles]"}, {"Style:", ""}, {"[Script Info]"}, {"PlayResX:", ""}, {""}}
 	}
